@@ -17,6 +17,7 @@ pub fn dispatch(ctx: &Ctx, rest: &[String]) -> i32 {
         "C09" => c09(ctx),
         "C10" => c10(ctx),
         "C18" => c18(ctx),
+        "C01" | "C02" | "C07" | "C08" | "C20" => histcheck::run(ctx),
         other => {
             eprintln!("unknown property {other}");
             2
@@ -160,3 +161,6 @@ fn c18(ctx: &Ctx) -> i32 {
         json!({}),
     )
 }
+
+pub mod hist;
+pub mod histcheck;
